@@ -48,14 +48,25 @@ def run(ctx):
     ms = 20000 if thorough else 3500
     events = []
     work = []
+
+    def race_run(args, what):
+        """One workload under the race detector.  Exit 66 = reports in the log; exit 2 with a Go runtime 'fatal error' (e.g.
+        concurrent map iteration and map write) or an unrecovered panic = the process was aborted by a race, which is the
+        property's own wording of the failure; any other failure of the driver is inconclusive."""
+        p = ctx.harness(args, timeout=3000, race=True, env=env, ok_codes=(0, 2, 66))
+        if p.returncode == 2:
+            err = p.stderr or ""
+            if "fatal error:" in err or "panic:" in err:
+                at = err.find("fatal error:") if "fatal error:" in err else err.find("panic:")
+                events.append({"ev": "race", "framework": True, "a": {"fn": "process aborted in %s: %s" % (what, err[at:at + 300].split("\n\n")[0])}, "b": {"fn": ""}})
+            else:
+                raise vlib.Inconclusive("harness %s failed (exit 2):\n%s" % (what, err[-2000:]))
+        return p
     # workload 1+2: command mix x churn x CONFIG SET/GET x registry enumeration x Stop/Start/Restart
     for i, extra in enumerate([[], ["--requirepass"]]):
         t = os.path.join(ctx.work, "mix%d.ndjson" % i)
-        p = ctx.harness(["racemix", "--out", t, "--ms", ms, "--clients", 32 if thorough else 12, "--seed", ctx.seed + i] + extra, timeout=3000, race=True,
-                        env=env, ok_codes=(0, 2, 66))
-        if p.returncode == 2:      # Go runtime fatal error / panic (66 is the race detector's own exit status: reports are in the log)
-            events.append({"ev": "race", "framework": True, "a": {"fn": "process aborted: " + p.stderr[-400:].split("\n\n")[0][:300]}, "b": {"fn": ""}})
-        elif os.path.exists(t):
+        p = race_run(["racemix", "--out", t, "--ms", ms, "--clients", 32 if thorough else 12, "--seed", ctx.seed + i] + extra, "racemix")
+        if p.returncode != 2 and os.path.exists(t):
             events += [dict(e, ev="mix") for e in vlib.read_jsonl(t) if e.get("ev") == "mix"]
     # workload 3: lifecycle scripts with gated goroutines (lifecycle caller vs accept loops vs connection goroutines)
     mcs = ctx.tlc("MC_C15", "MC_C15_quick.cfg", name="MC_C15", workers=vlib.NCPU, timeout=1200)
@@ -63,17 +74,16 @@ def run(ctx):
     random.Random(ctx.seed).shuffle(scripts)
     scen = os.path.join(ctx.work, "race_life.jsonl")
     vlib.write_jsonl(scen, scripts[:1500 if thorough else 150])
-    ctx.harness(["life", "--scenarios", scen, "--out", os.path.join(ctx.work, "race_life.ndjson")], timeout=3000, race=True, env=env, ok_codes=(0, 66))
+    race_run(["life", "--scenarios", scen, "--out", os.path.join(ctx.work, "race_life.ndjson")], "lifecycle scripts")
     work.append({"ev": "workload", "name": "lifecycle scripts", "n": min(len(scripts), 1500 if thorough else 150)})
     # workload 4: real-socket churn incl. TLS endings; workload 5: TLS gate scenarios
-    ctx.harness(["churn", "--out", os.path.join(ctx.work, "race_churn.ndjson"), "--cycles", 400 if thorough else 60, "--inflight", 16, "--seed", ctx.seed],
-                timeout=3000, race=True, env=env, ok_codes=(0, 66))
+    race_run(["churn", "--out", os.path.join(ctx.work, "race_churn.ndjson"), "--cycles", 400 if thorough else 60, "--inflight", 16, "--seed", ctx.seed], "churn")
     work.append({"ev": "workload", "name": "churn", "n": 400 if thorough else 60})
     mt = ctx.tlc("MC_C09", "MC_C09.cfg", name="MC_C09", workers=4, timeout=600)
     tl = [json.loads(s) for s in mt.scenarios]
     scen = os.path.join(ctx.work, "race_tls.jsonl")
     vlib.write_jsonl(scen, tl[:: (1 if thorough else 6)])
-    ctx.harness(["tlsgate", "--scenarios", scen, "--out", os.path.join(ctx.work, "race_tls.ndjson")], timeout=3000, race=True, env=env, ok_codes=(0, 66))
+    race_run(["tlsgate", "--scenarios", scen, "--out", os.path.join(ctx.work, "race_tls.ndjson")], "tlsgate")
     work.append({"ev": "workload", "name": "tlsgate", "n": len(tl[:: (1 if thorough else 6)])})
     ctx.stage("workloads")
     reports = parse_reports(glob.glob(logs + "/r.*"))
